@@ -198,9 +198,13 @@ class Case:
         if out[0] == "bin":
             if out[1] in ("Sub", "SatSub") and out[2] == out[3]:
                 return ("int", 0, "usize")
-            return sym.mk_bin(out[1], out[2], out[3])
-        if out[0] == "len":
-            return sym.mk_len(out[1])
+            out = sym.mk_bin(out[1], out[2], out[3])
+        elif out[0] == "len":
+            out = sym.mk_len(out[1])
+        if out != t and isinstance(out, tuple) and out:
+            k2 = _int_key(out)
+            if k2 in rep:
+                return rep[k2]
         return out
 
     def truth(self, t):
@@ -309,7 +313,7 @@ def enumerate_cases(atoms, nonneg=True, extra_consts=(), variant_domain=None, co
         # Points that are sums/differences of other points are not free: the feasible order types are exactly those some
         # assignment of (small) non-negative integers to the remaining points realises.  Enumerate those assignments and keep the
         # order types they induce (a decision procedure for the table over a finite abstract domain - no solver, no program run).
-        derived = [t for t in ints if t[0] == "bin" and t[1] in ("Add", "Sub", "WrappingSub") and len(t) == 4]
+        derived = [t for t in ints if t[0] == "bin" and t[1] in ("Add", "Sub", "SatSub", "WrappingSub") and len(t) == 4]
         if derived and (not cs or max(cs) <= 4):
             iset = set(ints)
 
@@ -338,7 +342,7 @@ def enumerate_cases(atoms, nonneg=True, extra_consts=(), variant_domain=None, co
                             break
                         if t[1] == "Add":
                             val[t] = va + vb
-                        elif t[1] == "Sub":
+                        elif t[1] in ("Sub", "SatSub"):
                             val[t] = max(va - vb, 0)
                         else:
                             # wrapping_sub: a wrapped difference is larger than every length/index in play (those are <= isize::MAX)
